@@ -38,6 +38,10 @@ impl Ctx {
     pub fn slow(&self) -> bool {
         self.mode == Mode::Miri
     }
+    /// does this build abort on an out-of-bounds unchecked access?
+    pub fn can_probe(&self) -> bool {
+        cfg!(debug_assertions) || self.mode == Mode::Asan || self.mode == Mode::Miri || self.flavour == "fuzz"
+    }
     pub fn transition_cap(&self) -> u64 {
         match (self.mode, self.tier) {
             (Mode::Miri, _) => 20_000,
@@ -152,17 +156,17 @@ pub fn trie_for(case: &Case, spec: &Spec) -> SymTrie {
 }
 
 pub fn structure(ctx: &Ctx, p: &Pma<u32>, trie: Option<&SymTrie>) -> StructReport {
-    check_structure(p, trie, &Opts { transition_cap: ctx.transition_cap(), outputs_head_only: false }, |v| v)
+    check_structure(p, trie, &Opts { transition_cap: ctx.transition_cap(), outputs_head_only: false, can_probe: ctx.can_probe() }, |v| v)
 }
 
 /// Closure / ranking only, for automata over any value type.
 pub fn structure_untyped<V: Copy>(ctx: &Ctx, p: &Pma<V>) -> StructReport {
-    check_structure(p, None, &Opts { transition_cap: ctx.transition_cap(), outputs_head_only: false }, |_| 0)
+    check_structure(p, None, &Opts { transition_cap: ctx.transition_cap(), outputs_head_only: false, can_probe: ctx.can_probe() }, |_| 0)
 }
 
 /// Same, but only the head of every output list is compared (C02 / C05 read nothing else).
 pub fn structure_head_only(ctx: &Ctx, p: &Pma<u32>, trie: Option<&SymTrie>) -> StructReport {
-    check_structure(p, trie, &Opts { transition_cap: ctx.transition_cap(), outputs_head_only: true }, |v| v)
+    check_structure(p, trie, &Opts { transition_cap: ctx.transition_cap(), outputs_head_only: true, can_probe: ctx.can_probe() }, |v| v)
 }
 
 /// Records structure statistics into the evidence counters.
@@ -172,6 +176,9 @@ pub fn structure_stats(rep: &mut Report, r: &StructReport) {
     rep.count("dfa_transitions_validated", r.transitions_checked);
     rep.count("output_lists_validated", r.output_lists_checked);
     rep.max("max_fail_chain", r.max_fail_chain as f64);
+    if r.dead_marker_links > 0 {
+        rep.count("out_of_range_dead_links_probed_and_never_dereferenced", r.dead_marker_links);
+    }
     rep.max("max_output_chain", r.max_output_chain as f64);
     if r.table_done {
         rep.count("automata_table_validated", 1);
